@@ -17,7 +17,7 @@ import (
 func init() {
 	register(&Spec{ID: "C09", Title: "Passwords never cross the wire in clear when encryption is negotiated", Run: runC09,
 		Meta: core.Meta{
-			Explanation: "R09.13 = R06.6 (a field that is wider than its slot shifts the password slot and the seclogin flags). R09.11 = R14.12, R09.12 = R02.6 (a nonce that aliases a scratch buffer of the queue is overwritten by the next reads before Login encrypts under it). R09.10 = R15.7 + R15.6 (DiscardUntilCurrentPosition decides 'used up' on the body length of the packet under the position; a packet that stays queued after it was sent is written again with the next flush, repeating the password ciphertexts verbatim). R09.9: in NewLoginConfig the store Encrypt := TDS_MSG_SEC_ENCRYPT4 dominates every success return (no DSN option switches the password encryption off). R09.8: in Login the store LoginConfigRemoteServer.Password := config.DSN.Password dominates the call of pack() — the entry is rebuilt at every login, never kept from an earlier one. Absence-of-flow, decided by taint analysis over SSA (E-TAINT). R09.1: sources are all loads of dsn.Info.Password and tds.LoginConfigRemoteServer.Password in package tds; the secret may flow only (A) into rsaEncrypt's password parameter, where it may only be appended after the nonce and handed to rsa.EncryptOAEP as the message; (B) into writeString at the single call site of LoginConfig.pack that is dominated by config.Encrypt differing from all four TDS_MSG_SEC_ENCRYPT* constants (the plain-mode password slot); (C) into the Password field of the synthesised first remote server. Every other use — an argument of fmt/log, a buffer or BytesChannel write, a store into another field or variable, a return to a caller that uses it otherwise — is a violation reported with the flow path. Control: at least one flow of each accepted kind must be found. R09.2: the OAEP call uses sha1.New(), crypto/rand.Reader, an empty label and append(nonce, secret...) (nonce first); rsaEncrypt is called with the account password, each remote password and the session key. R09.3: generateSymmetricKey returns the 32-byte buffer filled by crypto/rand.Read under the length check. R09.4 (E-CONST): the message ids for which pack leaves the password slot empty are exactly those for which Login does not take the plain flow. R09.6: in package tds no value whose type holds Info.Password or LoginConfigRemoteServer.Password (directly or through pointers, slices, maps, nested structs) is converted to an interface — the only way into fmt, log, errors or reflection, where %v of the struct would print the password. R09.7: no branch condition in package tds is computed from a password (its value, its length, a comparison), except a test whose one edge returns an error at once (a rejection decides nothing about what is sent): the bytes sent depend on a secret only through its ciphertext. R09.5: every field object retained in the parameter slices built inside Login's remote-server loop is created in the same iteration (an object shared across iterations would make all entries carry the last ciphertext).",
+			Explanation: "R09.15 = R01.25. R09.16: SendRemainingPackets registers its deferred reset before the flush (or resets before every return after it): ciphertexts made for an old nonce never stay queued for the next attempt. R09.14 = R15.17. R09.13 = R06.6 (a field that is wider than its slot shifts the password slot and the seclogin flags). R09.11 = R14.12, R09.12 = R02.6 (a nonce that aliases a scratch buffer of the queue is overwritten by the next reads before Login encrypts under it). R09.10 = R15.7 + R15.6 (DiscardUntilCurrentPosition decides 'used up' on the body length of the packet under the position; a packet that stays queued after it was sent is written again with the next flush, repeating the password ciphertexts verbatim). R09.9: in NewLoginConfig the store Encrypt := TDS_MSG_SEC_ENCRYPT4 dominates every success return (no DSN option switches the password encryption off). R09.8: in Login the store LoginConfigRemoteServer.Password := config.DSN.Password dominates the call of pack() — the entry is rebuilt at every login, never kept from an earlier one. Absence-of-flow, decided by taint analysis over SSA (E-TAINT). R09.1: sources are all loads of dsn.Info.Password and tds.LoginConfigRemoteServer.Password in package tds; the secret may flow only (A) into rsaEncrypt's password parameter, where it may only be appended after the nonce and handed to rsa.EncryptOAEP as the message; (B) into writeString at the single call site of LoginConfig.pack that is dominated by config.Encrypt differing from all four TDS_MSG_SEC_ENCRYPT* constants (the plain-mode password slot); (C) into the Password field of the synthesised first remote server. Every other use — an argument of fmt/log, a buffer or BytesChannel write, a store into another field or variable, a return to a caller that uses it otherwise — is a violation reported with the flow path. Control: at least one flow of each accepted kind must be found. R09.2: the OAEP call uses sha1.New(), crypto/rand.Reader, an empty label and append(nonce, secret...) (nonce first); rsaEncrypt is called with the account password, each remote password and the session key. R09.3: generateSymmetricKey returns the 32-byte buffer filled by crypto/rand.Read under the length check. R09.4 (E-CONST): the message ids for which pack leaves the password slot empty are exactly those for which Login does not take the plain flow. R09.6: in package tds no value whose type holds Info.Password or LoginConfigRemoteServer.Password (directly or through pointers, slices, maps, nested structs) is converted to an interface — the only way into fmt, log, errors or reflection, where %v of the struct would print the password. R09.7: no branch condition in package tds is computed from a password (its value, its length, a comparison), except a test whose one edge returns an error at once (a rejection decides nothing about what is sent): the bytes sent depend on a secret only through its ciphertext. R09.5: every field object retained in the parameter slices built inside Login's remote-server loop is created in the same iteration (an object shared across iterations would make all entries carry the last ciphertext).",
 			NotDecided:  "Cryptographic strength, what the standard library does with the bytes, and the length of the password (len() is not treated as a leak) are not decided.",
 			Assumptions: []string{"rsa.EncryptOAEP does not expose its message", "package tds is the only code that writes login bytes"},
 		}})
@@ -44,6 +44,12 @@ func runC09(r *core.Run) {
 	r.Rule("R09.12", "values read from the reply (the nonce) do not alias queue storage (R02.6)", 1, false)
 	defer func() {
 		r.Rule("R09.13", "login-record fields have their byte width: writeString tests, pads and declares len(s) (R06.6)", 1, false)
+		r.Rule("R09.14", "what is queued is what was encoded: WriteBytes copies in one place (R15.17)", 1, false)
+		defer oneCopySite(r, "R09.14")
+		r.Rule("R09.15", "the queue that carries the ciphertexts follows the live packet size (R01.25)", 2, false)
+		defer liveSizeGetter(r, "R09.15")
+		r.Rule("R09.16", "nothing of a failed login attempt stays queued", 1, false)
+		defer resetOnEveryExit(r, "R09.16")
 		defer c06WriteString(r, "R09.13")
 		ok, why := bytesReturnsFresh(r.Prog)
 		r.Check(ok, "R09.12", "PacketQueue.Bytes returns a buffer of its own", r.Prog.Func("tds", "PacketQueue", "Bytes").Pos(), "make([]byte, n) allocated by the call", why)
